@@ -37,6 +37,12 @@ builder's tree of the source the state machine holds, and each call's output is 
 defaults / inputs the state machine names.
 Correspondence: token streams and compiled trees (with all literal nodes) of the Lean scanner/builder model vs the real
 parser on the same sources and on raw fragment soups.
+Names outside ASCII: the tag-name alphabets are ASCII, so candidates like '%(größe)s', '<dtml-ü x>', '&dtml-xα;' are
+text; generated inside literals, in the battery, and swept (every character / name x every form x both classes x name
+undefined / defined in the namespace, alone and in front of a real tag); they also go through the token / tree
+correspondence.
+Concurrent compilation: templates are independent objects; 2-3 threads compile and render their own, different
+templates under harness/sched.py's line scheduler (every way of making an object compile), expected = the printer.
 """
 import copy
 import json
@@ -89,6 +95,51 @@ CANDS = {
     'S': ['<!--#var x ', '<!--#if flag', '<!--#/if', '<!--#end in ', '<!--#else', '<!--#comment', '<!--#var "x" --'],
     'P': ['%(x', '%(if flag', '%(x fmt="a', '%(/if', '%(x y'],
 }
+
+# Tag candidates whose NAME is not a tag name because it holds word characters outside ASCII.  The documented tag-name
+# alphabets are ASCII only (EPFS: a-z A-Z 0-9 _ / . -; <dtml-…> / <!--#…: ASCII letters; entities: - a-z A-Z 0-9 _ .), so a
+# candidate whose name position holds a letter, digit, connector or mark of any other script is text whatever follows it
+# (kind L).  The four characters that Python's case-insensitive matching folds into a-z (U+017F, U+212A, U+0130, U+0131)
+# are left out: the documentation of `re` makes them members of [a-z] under re.I.
+NONASCII_WORD = ['\xfc', '\xe9', '\xdf', '\xf1', '\xaa', '\xb5', '\xb2', '\xbd', '\u03b1', '\u03a9', '\u0416', '\u044f',
+                 '\u05d0', '\u0661', '\u0662', '\u0967', '\u6f22', '\u3042', '\uff58', '\uff11', '\u203f', '\u2167',
+                 '\U0001d44e', '\U0001d7d8', '\u0101', '\u0390']
+NONASCII_NAMES = NONASCII_WORD + ['\xf6\xdfe', '\xefve', '\u0661\u0662', '\xe9t\xe9', '\xfcfung', '\xfc1', '\xfcx', '\u03b1_1',
+                                  '\u6f22\u5b57', '\xfc.x', '\xfc-x', '\xfc/x']
+# names that begin with ASCII name characters: text in the %( syntax (there the whole run up to a blank or ')' must be a
+# name); in the <dtml-…> syntaxes the ASCII letters in front ARE a tag name, so those forms are not generated for them
+NONASCII_MIXED = ['gr\xf6\xdfe', 'na\xefve', 'pr\xfcfung', 'x\xfc', 'a1\u03b1', 'gr\xf6sse.x', 'x_\u0661']
+# name %s is substituted; every form is text for BOTH classes when the name starts with such a character
+NONASCII_FORMS_STARTING = ['%%(%s)s', '%%(%s)d', '%%(%s)5.2f', '%%(%s fmt=x)s', '%%(%s x)s', '%%(%s)[', '%%(%s)]', '%%(%s)!',
+                           '%%(%s null="")s', '<dtml-%s>', '<dtml-%s x>', '</dtml-%s>', '<dtml- %s>', '<!--#%s x-->', '<!--#/%s-->',
+                           '<!--# %s-->', '&dtml-%s;', '&dtml.%s-x;', '&dtml.url_quote-%s;']
+# … and these are text when such a character stands anywhere in the name (an ASCII name part in front of it must be
+# followed by a blank or the terminator to be a name; an entity's body must be a name up to the ';')
+NONASCII_FORMS_INSIDE = ['%%(a%s)s', '%%(x.%s)d', '%%(/%s)]', '%%(x_%s y)s', '%%(1%s)[', '&dtml-x%s;', '&dtml-x.%s;',
+                         '&dtml.html_quote-x%s;']
+
+
+def nonascii_fragments():
+    for w in NONASCII_NAMES:
+        for f in NONASCII_FORMS_STARTING + NONASCII_FORMS_INSIDE:
+            yield w, f % w
+    for w in NONASCII_MIXED:
+        for f in NONASCII_FORMS_STARTING + NONASCII_FORMS_INSIDE:
+            if f.startswith('%%('):
+                yield w, f % w
+
+
+def gen_nonascii_cand(r):
+    if r.random() < 0.3:
+        w = r.choice(NONASCII_MIXED)
+        return mark('L', r.choice([f for f in NONASCII_FORMS_STARTING + NONASCII_FORMS_INSIDE if f.startswith('%%(')]) % w)
+    w = r.choice(NONASCII_NAMES)
+    return mark('L', r.choice(NONASCII_FORMS_STARTING + NONASCII_FORMS_INSIDE) % w)
+
+
+# a fixed slice of them takes part in the battery (every candidate in front of every kind of tag in every block context)
+CANDS['L'] += ['%(gr\xf6\xdfe)s', '%(\u0661\u0662)d', '%(\u03b1 fmt=x)s', '%(pr\xfcfung)[', '%(\xfc)]', '%(a\xe9)s', '%(x.\u0416)d',
+               '<dtml-\xfc x>', '</dtml-\u6f22>', '<!--#\xe9 x-->', '&dtml-\xfc;', '&dtml-x\u03b1;']
 ALL_CANDS = [(k, f) for k in 'LQSP' for f in CANDS[k]]
 
 
@@ -160,6 +211,8 @@ def lit_ok(t):
 
 
 def gen_cand(r):
+    if r.random() < 0.2:
+        return gen_nonascii_cand(r)
     k = r.choice('LLLLQQQQSP')
     return mark(k, r.choice(CANDS[k]))
 
@@ -1062,7 +1115,179 @@ def tmpl_corr(res, segments, have_driver):
                     break
 
 
-def run_checks(res, r, n_tmpl, n_plain, n_pairs, have_driver, n_hist=0, battery_stride=1, n_walks=0):
+# --------------------------------------------------------------------------- names outside ASCII are no tag names
+
+def run_nonascii_names(res, r, corr_cases, stride=1):
+    """every non-ASCII word character / name x every candidate form, alone and in front of a real tag, in both classes, with
+    a namespace that does NOT define the name and one that DOES (a recogniser that claims the text would insert the value):
+    the candidate is reproduced verbatim."""
+    from DocumentTemplate import HTML, String
+    real = {'html': ('<dtml-var x>', '&dtml-y;', '<dtml-if flag>\nT</dtml-if>'), 'epfs': ('%(x)s', '%(y)s', '%(if flag)[\nT%(if flag)]')}
+    i = 0
+    for w, frag in nonascii_fragments():
+        i += 1
+        if i % stride:
+            continue
+        for kind, cls in (('html', HTML), ('epfs', String)):
+            j = r.randrange(3)
+            pre, post = r.choice(['', 'A ', '100', '\n', '"']), r.choice(['', ' B', ' cm\n', ';', '>', ')s', ' -->'])
+            for src, exp in ((pre + frag + post, pre + frag + post),
+                             (pre + frag + post + real[kind][j] + 'Z' + frag,
+                              pre + frag + post + (SENT['x'], SENT['y'], 'T')[j] + 'Z' + frag)):
+                for defined in (False, True):
+                    ns = namespace()
+                    if defined:
+                        for nm in {w, frag, w.split('.')[0], 'a' + w, 'x' + w, 'x_' + w, '1' + w}:
+                            ns[nm] = '\u2020CLAIMED\u2020'
+                    got = outcome(lambda: cls(src)(**ns))
+                    res.evaluations += 1
+                    res.count('nonascii_name_' + kind)
+                    res.nt(('nonascii', kind, src))
+                    if got != {'ok': exp}:
+                        res.oracle_fail.append({'case': {'syntax': kind, 'src': src, 'name_defined_in_namespace': defined},
+                                                'what': 'a tag candidate whose name holds a non-ASCII word character is text; '
+                                                        'expected %r, got %r' % (exp, got)})
+                corr_cases.append((kind, src))
+
+
+# --------------------------------------------------------------------------- several threads compile DIFFERENT templates
+
+CONC_WAYS = ['new', 'new', 'edit', 'raw+cook', 'unpickle', 'deepcopy', 'cook-again']
+
+
+def conc_body(way, cls, src, other_src):
+    """a thread body that makes an object of `cls` compile `src` in the given way and renders it twice (the second call
+    uses what the first compiled); prepared outside the scheduled run, so that only compiling + rendering is interleaved"""
+    ns = namespace()
+    if way == 'new':
+        def body():
+            t = cls(src)
+            return [t(**ns), t(**ns)]
+        return body
+    if way in ('edit', 'raw+cook'):
+        t = cls(other_src)
+        outcome(lambda: t(**ns))
+
+        def body():
+            if way == 'edit':
+                t.munge(src)
+            else:
+                t.raw = src
+                t.cook()
+            return [t(**ns), t(**ns)]
+        return body
+    if way == 'unpickle':
+        blob = pickle.dumps(cls(src))
+
+        def body():
+            t = pickle.loads(blob)
+            return [t(**ns), t(**ns)]
+        return body
+    if way == 'deepcopy':
+        t0 = cls(src)
+
+        def body():
+            t = copy.deepcopy(t0)
+            return [t(**ns), t(**ns)]
+        return body
+    t1 = cls(src)
+    outcome(lambda: t1(**ns))
+
+    def body():
+        t1.cook()
+        return [t1(**ns), t1(**ns)]
+    return body
+
+
+def conc_simple(r, i):
+    """small templates with literals of distinct lengths around one or two tags (so that offsets of one template never
+    fit the other)"""
+    a = ''.join(r.choice('ABCDEFGH') for _ in range(r.randint(1, 9)))
+    b = ''.join(r.choice('0123456789') for _ in range(r.randint(0, 12)))
+    c = r.choice(['', ' tail', '\nend\n', 'zz'])
+    forms = [
+        [('lit', a), ('var', ('name', r.choice('xyz')), []), ('lit', b + c)],
+        [('var', ('name', 'x'), []), ('lit', a), ('var', ('name', 'y'), []), ('lit', b)],
+        [('lit', a), ('if', [(('name', 'flag'), [('lit', b or 'b'), ('var', ('name', 'z'), [])])], [('lit', 'no')]), ('lit', c or 'c')],
+        [('lit', b or '0'), ('in', ('name', 'items'), [], [('lit', '[' + a), ('var', ('name', 'y'), []), ('lit', ']')], None), ('lit', c)],
+        [('lit', a + b)],
+        [('lit', a), ('comment', [('lit', b or 'h')]), ('lit', c or 'c')],
+    ]
+    return merge_lits([n for n in forms[i % len(forms)] if n[0] != 'lit' or n[1]])
+
+
+def run_concurrent(res, r, n, pool):
+    """Templates are independent objects: what one thread's template renders does not depend on what other threads
+    compile meanwhile.  Two or three threads each compile (new object / munge / raw + cook / unpickle / deepcopy / cook
+    again) and render THEIR OWN template -- different sources, any mix of the three syntaxes and two classes -- under the
+    deterministic line scheduler, preempted at every kind of point of the compilation; expected output of each thread:
+    the independent printer on its own abstract template."""
+    import sched
+    from DocumentTemplate import HTML, String
+    import DocumentTemplate
+    pkg = os.path.dirname(DocumentTemplate.__file__) + os.sep
+    usable = []
+    for t in pool:
+        if sum(1 for _ in str(t)) < 900:
+            usable.append(t)
+    for case in range(n):
+        nthreads = 3 if r.random() < 0.2 else 2
+        specs = []
+        for k in range(nthreads):
+            t = conc_simple(r, r.randrange(6)) if (r.random() < 0.6 or not usable) else r.choice(usable)
+            same_syntax = specs and r.random() < 0.7
+            syn = specs[0][1] if same_syntax else r.choice(['dtml', 'dtml', 'ssi', 'epfs'])
+            kind, src, cands = printed(t, syn, r)
+            if not cands_are_text(kind, src, cands):
+                t = conc_simple(r, k)
+                kind, src, cands = printed(t, syn, r)
+            specs.append((t, syn, kind, src, r.choice(CONC_WAYS)))
+        if len({s[3] for s in specs}) < 2:
+            continue
+        exps = [expected(s[0]) for s in specs]
+
+        def bodies():
+            return [conc_body(s[4], HTML if s[2] == 'html' else String, s[3], 'old <dtml-var x> source %(x)s') for s in specs]
+        # how many yield points does thread 0 pass alone?
+        results, sc = sched.run_threads(bodies()[:1], [(0, sched.INF)], {}, pkg)
+        n0 = sc.steps.get(0, 0)
+        if results[0] != ('ok', [exps[0], exps[0]]):
+            res.oracle_fail.append({'case': {'threads': [{'syntax': s[1], 'src': s[3], 'way': s[4]} for s in specs[:1]]},
+                                    'what': 'alone under the scheduler: expected %r twice, got %r' % (exps[0], results[0])})
+            continue
+        ks = sorted(set([r.randrange(1, max(2, n0)) for _ in range(6)] + [r.randrange(1, max(2, min(n0, 120))) for _ in range(6)]))
+        for k in ks:
+            if nthreads == 2:
+                script = [(0, k), (1, sched.INF), (0, sched.INF)]
+                if r.random() < 0.3:
+                    script = [(0, k), (1, r.randrange(1, 150)), (0, r.randrange(1, 60)), (1, sched.INF), (0, sched.INF)]
+            else:
+                script = [(0, k), (1, r.randrange(1, 150)), (2, sched.INF), (0, r.randrange(1, 60)), (1, sched.INF), (0, sched.INF)]
+            results, sc = sched.run_threads(bodies(), script, {}, pkg)
+            if any(x is None or x[0] in ('deadlock', 'hang') for x in results):
+                # the scheduler gave up (it declares a deadlock when every unfinished thread is still marked as waiting for
+                # the lock at the moment the last runnable one ends): not an observation about literal text -- C18 looks
+                # at locking; left out and counted
+                res.count('concurrent_excluded_scheduler_gave_up')
+                continue
+            res.evaluations += 1
+            res.count('concurrent_compile_threads=%d' % nthreads)
+            res.count('concurrent_way=' + specs[0][4])
+            res.count('concurrent_classes=' + '+'.join(sorted({s[2] for s in specs})))
+            res.nt(('conc', case, k))
+            for tid, (s, exp) in enumerate(zip(specs, exps)):
+                if results[tid] != ('ok', [exp, exp]):
+                    res.oracle_fail.append({'case': {'threads': [{'syntax': x[1], 'src': x[3], 'way': x[4]} for x in specs],
+                                                     'schedule': [[a, b if b < sched.INF else 'end'] for a, b in script], 'thread': tid},
+                                            'what': 'threads compiling different templates under the line scheduler: thread %d '
+                                                    'must render its own template to %r (twice); got %r' % (tid, exp, results[tid])})
+                    break
+            else:
+                continue
+            break
+
+
+def run_checks(res, r, n_tmpl, n_plain, n_pairs, have_driver, n_hist=0, battery_stride=1, n_walks=0, n_conc=0, nonascii_stride=1):
     corr_cases = []
     tmpls = []
     for _ in range(n_tmpl):
@@ -1133,6 +1358,9 @@ def run_checks(res, r, n_tmpl, n_plain, n_pairs, have_driver, n_hist=0, battery_
             res.oracle_fail.append({'case': {'syntax': 'html', 'a': sa, 'b': sb},
                                     'what': 'render(a+b) = %r but render(a)+render(b) = %r' % (rab, ra['ok'] + rb['ok'])})
         corr_cases.append(('html', sa + sb))
+    run_nonascii_names(res, r, corr_cases, nonascii_stride)
+    if n_conc:
+        run_concurrent(res, r, n_conc, tmpls)
     # object histories
     run_histories(res, r, n_hist, tmpls)
     if n_walks:
@@ -1163,11 +1391,17 @@ def run(res, tier, have_driver):
                 'operation with x / y / z partly from the installed defaults; each source-giving operation x {tags, empty, '
                 'degenerate}^2 deterministically; the walks also run on the Lean template state machine (raw, defaults, '
                 'compiled blocks == Lean builder of the current source, output); non-trivial = sources containing a newline / '
-                'candidate / near-tag character / pair junctions / histories')
+                'candidate / near-tag character / pair junctions / histories; tag candidates whose name holds word characters '
+                'outside ASCII (letters / digits / marks of other scripts x every candidate form of the three syntaxes, name at the '
+                'start or inside) are text: in literals of generated templates, in the battery, and swept alone / before a real '
+                'tag in both classes with the name undefined and defined in the namespace; concurrent compilation: 2-3 threads '
+                'each compile (new object / munge / raw + cook / unpickle / deepcopy / cook again) and render twice their OWN, '
+                'different template (any mix of syntaxes / classes) under the deterministic line scheduler with preemptions '
+                'inside the compilation: each output == independent printer on that thread\'s template')
     if tier == 'quick':
-        run_checks(res, r, 400, 1500, 2000, have_driver, 250, n_walks=250)
+        run_checks(res, r, 400, 1500, 2000, have_driver, 250, n_walks=250, n_conc=40, nonascii_stride=3)
     else:
-        run_checks(res, r, 6000, 30000, 20000, have_driver, 4000, n_walks=5000)
+        run_checks(res, r, 6000, 30000, 20000, have_driver, 4000, n_walks=5000, n_conc=600)
     res.sample({'example': 'see input_distribution'})
     res.assumptions += ['the hand-compiled scanners are validated against CPython re by the token correspondence, not proved '
                         'equivalent', 'rendering of the tags used by the oracle (sentinel var, fixed-truth if/unless, fixed-length '
@@ -1185,7 +1419,7 @@ def run(res, tier, have_driver):
 def search_more(res, tier):
     r = common.rng('C01-more')
     res2 = common.Result('C01')
-    run_checks(res2, r, 3000, 10000, 10000, False, 1500, n_walks=1500)
+    run_checks(res2, r, 3000, 10000, 10000, False, 1500, n_walks=1500, n_conc=150)
     return res2.oracle_fail
 
 
